@@ -25,7 +25,9 @@ func (s *Store) deleteModule(m *ModuleInstance) error {
 	m.prev = nil
 	m.next = nil
 
-	if m.ModuleName != "" {
+	// Only unregister the name when this instance owns it: an instance that
+	// failed to register (name already taken) must not delete the live owner.
+	if m.ModuleName != "" && s.nameToModule[m.ModuleName] == m {
 		delete(s.nameToModule, m.ModuleName)
 
 		// Shrink the map if it's allocated more than twice the size of the list
